@@ -44,6 +44,8 @@ def build(d):
         n, pat = d[2], d[3]
         b = bytes(((i * pat + pat) & 0xFF) for i in range(n))
         return values.v_octets(b, d[1], lf), 0, False
+    if k == "octraw":
+        return values.v_octets(bytes.fromhex(d[2]), d[1], lf), 0, False
     if k == "oid":
         return values.v_oid(tuple(d[1])), 0, False
     if k == "ip":
@@ -59,7 +61,8 @@ def build(d):
         tol = 0
         if d[2].bit_length() > 53 or (v.py != 0 and abs(v.py) < 2.3e-308):
             tol = 1
-        return v, tol, False
+        # mantissas wider than 8 octets are legal BER but beyond what a float needs: the value or an SnmpError, nothing else
+        return v, tol, d[2].bit_length() > 64
     if k == "realspecial":
         py = {0x40: math.inf, 0x41: -math.inf, 0x42: math.nan, 0x43: -0.0}[d[1]]
         return values.v_real_content(bytes([d[1]]), py), 0, False
@@ -101,6 +104,7 @@ def real_values(thorough):
     for t in nr3:
         out.append(["realdec", 3, t])
     mants = [1, 2**8 - 1, 2**16, 2**32 - 1, 2**32, 2**53 - 1, 2**53 + 1, 2**64 - 1, 3, 0x123456789]
+
     for sign in (1, -1):
         for base in (2, 8, 16):
             for f in range(4):
@@ -147,6 +151,15 @@ def value_model(tier):
         for n in (0, 1, 2, 127, 128, 255, 256, 1000):
             for pat in (0, 1, 255):
                 vals.append(["oct", kind, n, pat])
+    # contents that look like something else: Net-SNMP's Opaque-wrapped Float / Double / Counter64 / I64, nested TLVs, text
+    import struct as _st
+
+    looks = ["9f7804" + _st.pack(">f", x).hex() for x in (1.0, 3.14159, 0.0, -2.5)] + ["9f78047fc00000", "9f7804ffffffff"]
+    looks += ["9f7908" + _st.pack(">d", x).hex() for x in (1.0, 2.718281828, -0.0)] + ["9f79087ff8000000000000"]
+    looks += ["9f760101", "9f7a0400000001", "9f7b08" + "00" * 7 + "05", "9f78", "9f7803aabbcc", "9f780500000000ff", "0500", "020105", "3000", "0403616263", "4401ff", "31", "2d31", "312e35", "6e616e", "00", "ff" * 9]
+    for kind in ("octets", "opaque", "objdesc"):
+        for hx in looks:
+            vals.append(["octraw", kind, hx])
     for ip in ((0, 0, 0, 0), (255, 255, 255, 255), (127, 0, 0, 1), (128, 0, 0, 0), (10, 255, 0, 1), (1, 2, 3, 4), (192, 168, 255, 254), (0, 0, 0, 255)):
         vals.append(["ip"] + list(ip))
     for a in ARCS:
@@ -170,6 +183,8 @@ def boundary_subset(vals):
             out.append(d)
         elif d[0] == "u" and (d[2] > 70000 or d[2] in (0, 127, 128, 255, 256, 65535)):
             out.append(d)
+        elif d[0] == "octraw" and d[1] == "opaque" and d[2][:4] == "9f78":
+            out.append(d)
         elif d[0] == "oct" and d[3] == 1:
             out.append(d)
         elif d[0] in ("ip", "bool", "realspecial", "realzero", "realdec"):
@@ -189,6 +204,12 @@ def lenient_values():
         for c in ("ff", "80", "ffff", "ffffffff", "8000"):
             out.append(["uraw", kind, c])
     out.append(["uraw", "counter64", "ffffffffffffffff"])
+    # binary REALs whose mantissa is wider than 8 octets (9..18 octets)
+    for sign in (1, -1):
+        for base in (2, 8, 16):
+            for m in (2**64, 2**64 + 1, 2**72 - 1, 2**96 + 12345, 2**127, 2**128 - 1, 2**128, 2**136 + 7):
+                for e, el in ((0, 1), (-70, 1), (3, 2)):
+                    out.append(["realbin", sign, m, base, 0, e, el])
     return out
 
 
@@ -454,7 +475,7 @@ def run_case(case, worlds=None):
 
 def signature(case, d, what):
     cfg = Cfg.from_desc(case["cfg"])
-    kind = d[0] if d[0] not in ("u", "uraw", "oct") else "%s:%s" % (d[0], d[1])
+    kind = d[0] if d[0] not in ("u", "uraw", "oct", "octraw") else "%s:%s" % (d[0], d[1])
     return "%s/%s/%s/%s: %s" % (case["driver"], cfg.name if cfg.version == "v3" else cfg.version, case["op"], kind, what)
 
 
@@ -545,7 +566,7 @@ def run(tier):
     rec.assume(
         "reference encoder vlib/refber.py; REAL expected value = correctly rounded exact rational (1 ulp tolerance when the mantissa exceeds 53 bits or the result is subnormal)",
         "RELATIVE-OID varbind names are a library extension; their meaning is taken from the repository's own unit tests (tail replacement, chained); refusing them is accepted, resolving them to a different OID is not",
-        "lenient class (non-minimal INTEGER contents, unsigned contents with the top bit set and no leading zero): an SnmpError is acceptable, a different value is not",
+        "lenient class (non-minimal INTEGER contents, unsigned contents with the top bit set and no leading zero, binary REAL mantissas wider than 8 octets): an SnmpError is acceptable, a different value is not",
     )
     cases = list(gen_cases(tier))
     fast_cases = [c for c in cases if c["driver"] == "split"]
